@@ -432,6 +432,11 @@ impl Lowerer<'_, '_> {
                 })
                 .collect();
 
+            // Open the block of this variant first, so that the early return
+            // for an uninhabited variant does not land in the (already
+            // terminated) block of the switch.
+            self.new_block(variant_lbl);
+
             let Some(layouts) = variant
                 .1
                 .iter()
@@ -448,7 +453,6 @@ impl Lowerer<'_, '_> {
                 continue;
             };
 
-            self.new_block(variant_lbl);
             self.emit_jump(lbls[0]);
 
             let mut builder = LayoutBuilder::new();
